@@ -145,7 +145,7 @@ def run(tier, seed):
             nb += 1
             cov["steps_replayed"] += r["steps"]
             distinct.add(r["hash"])
-            for d in r["devs"]:
+            for d in (r.get("devs") or []):
                 devs.append({"prop": d["prop"], "fork": o["fork"], "dev": d,
                              "behaviour": o["behaviours"][r["behaviour"] - 1]})
         cov["behaviours_replayed"] += nb
@@ -246,7 +246,7 @@ def replay(pid, path, seed=None):
     for r in lib.read_ndjson(rpath):
         if r.get("summary"):
             continue
-        for d in r["devs"]:
+        for d in (r.get("devs") or []):
             devs.append({"prop": d["prop"], "fork": doc["fork"], "dev": d, "behaviour": json.dumps(doc["behaviour"])})
     viol, known = adjudicate(pid, devs)
     return report(pid, viol, known)
@@ -295,7 +295,7 @@ def selftest():
         entries = ssz.load_findings()
         n = 0
         for r in lib.read_ndjson(rp):
-            for d in r.get("devs", []):
+            for d in (r.get("devs") or []):
                 if match_finding(entries, d["prop"], "altair", d) is None:
                     n += 1
         return n
